@@ -63,7 +63,8 @@ func (r *reifier) value(term string, t types.Type, path string, depth int, bound
 	case *types.Slice:
 		r.add(path+".len", App("sl.len", term))
 		r.add(path+".nil", Eq(App("sl.base", term), "Null"))
-		*bounds = append(*bounds, App("<=", App("sl.len", term), fmt.Sprint(ReifyBound)))
+		r.add(path+".cap", App("sl.cap", term))
+		*bounds = append(*bounds, App("<=", App("sl.len", term), fmt.Sprint(ReifyBound)), App("<=", App("sl.cap", term), "64"))
 		n := ReifyBound
 		if depth >= 1 {
 			n = 3
@@ -186,6 +187,10 @@ func GoLiteral(m Model, t types.Type, path string, qual types.Qualifier, depth i
 		var es []string
 		for i := int64(0); i < n; i++ {
 			es = append(es, GoLiteral(m, u.Elem(), fmt.Sprintf("%s[%d]", path, i), qual, depth+1))
+		}
+		if c, ok := m.int(path + ".cap"); ok && c > n && c <= 64 {
+			// honour a capacity larger than the length (code may reslice up to cap)
+			return fmt.Sprintf("append(make(%s, 0, %d), %s{%s}...)", ts, c, ts, strings.Join(es, ", "))
 		}
 		return fmt.Sprintf("%s{%s}", ts, strings.Join(es, ", "))
 	case *types.Struct:
